@@ -105,8 +105,17 @@ pub fn run(cases_path: &str, out_path: &str) {
                 let m = node.metadata().clone();
                 let mut hd = http::HeaderMap::new();
                 node.add_encoding_headers(&mut hd);
-                json!({"k": "node", "name": tree.names.get(&(m.dev(), m.ino())).cloned().unwrap_or_else(|| "?outside".into()),
-                       "dir": m.is_dir(), "enc": node.encoding().unwrap_or(""), "varies": node.encoding_varies(),
+                let enc = node.encoding().unwrap_or("");
+                let varies = node.encoding_varies();
+                // the node as an entity (ties C19 to C18): refused unless it is a regular file
+                let ent: Result<http_serve::ChunkedReadFile<bytes::Bytes, Box<dyn std::error::Error + Send + Sync>>, _> =
+                    node.into_file_entity(http::HeaderMap::new());
+                let (ent_ok, ent_len) = match &ent {
+                    Ok(e) => (true, http_serve::Entity::len(e) as i64),
+                    Err(_) => (false, -1),
+                };
+                json!({"k": "node", "ent_ok": ent_ok, "ent_len": ent_len, "size": m.len(), "name": tree.names.get(&(m.dev(), m.ino())).cloned().unwrap_or_else(|| "?outside".into()),
+                       "dir": m.is_dir(), "enc": enc, "varies": varies,
                        "ce": hd.get("content-encoding").map(|v| String::from_utf8_lossy(v.as_bytes()).to_string()).unwrap_or_default(),
                        "vary": hd.get("vary").map(|v| String::from_utf8_lossy(v.as_bytes()).to_string()).unwrap_or_default()})
             }
